@@ -408,9 +408,10 @@ func (c *Config) validateLogging() error {
 	validLogFormats := map[string]bool{
 		"json":    true,
 		"console": true,
+		"text":    true, // documented name of the console format
 	}
 	if c.Logging.Format != "" && !validLogFormats[c.Logging.Format] {
-		return fmt.Errorf("invalid log format: %s (valid: json, console)", c.Logging.Format)
+		return fmt.Errorf("invalid log format: %s (valid: json, console, text)", c.Logging.Format)
 	}
 	return nil
 }
